@@ -150,17 +150,6 @@ def noSharedSegments (m : MPoly) : Bool :=
   (List.range es.size).all (fun i => (List.range es.size).all (fun j =>
     if j ≤ i then true else !collinearOverlap es[i]! es[j]!))
 
-/-- C02 on a result -/
-def validOutput (m : MPoly) (tol : Rat) : Verdict :=
-  if !noSharedSegments m then .fail "boundary segment shared or traversed twice" none else
-  let l := layout m #[]
-  match checkFormula "result nesting" l.atoms (nestingFormula l) tol with
-  | .pass c t =>
-    match checkFormula "struct = even-odd" l.atoms (fun v => evalMP v l == evalEO v l) tol with
-    | .pass c2 t2 => .pass (c + c2) (t + t2)
-    | r => r
-  | r => r
-
 /-! ### C04 -/
 
 def dist2PtSeg (p : Pt) (e : Seg) : Rat :=
@@ -248,5 +237,51 @@ def c01Verdict (a b r : MPoly) (op : Op) (tol : Rat) : Verdict :=
   | .fail w =>
     if memMP r w == opSem op (memEO a w) (memEO b w) then .internal "region: comparator failed at a point where the statement holds"
     else .fail "region" (some w)
+
+end Gbo.Spec
+
+namespace Gbo.Spec
+open Gbo
+
+/-! ### C02 and the "same region" relation as single definitions with soundness theorems -/
+
+/-- nesting facts + "structural reading = even-odd reading" in one formula over the rings of `m` -/
+def c02Formula (l : Layout) (v : Array Bool) : Bool := nestingFormula l v && (evalMP v l == evalEO v l)
+
+def c02Check (m : MPoly) (tol : Rat) : CheckResult :=
+  regionFormulaCheck (layout m #[]).atoms (c02Formula (layout m #[])) tol
+
+/-- the two results describe the same region (structural reading on both sides) -/
+def sameRegionLayouts (r1 r2 : MPoly) : Layout × Layout :=
+  let l1 := layout r1 #[]
+  let l2 := layout r2 l1.atoms
+  (l1, l2)
+
+/-- C02 on a result: no shared boundary segment, then `c02Check` (its soundness: Gbo.Props.C02_check_sound),
+    a failure being re-confirmed at the witness point by direct evaluation -/
+def validOutput (m : MPoly) (tol : Rat) : Verdict :=
+  if !noSharedSegments m then .fail "boundary segment shared or traversed twice" none else
+  match c02Check m tol with
+  | .ok c t => .pass c t
+  | .unordered x => .internal s!"valid: slab at {x} violates a precondition of the comparator"
+  | .fail w =>
+    let l := layout m #[]
+    let v := l.atoms.map (fun es => memEdges es w)
+    if c02Formula l v then .internal "valid: comparator failed at a point where the formula holds"
+    else if !nestingFormula l v then .fail "result nesting" (some w)
+    else .fail "struct = even-odd" (some w)
+
+def sameRegionCheck (r1 r2 : MPoly) (tol : Rat) : CheckResult :=
+  let ls := sameRegionLayouts r1 r2
+  regionFormulaCheck ls.2.atoms (fun v => evalMP v ls.1 == evalMP v ls.2) tol
+
+/-- "same region" with re-confirmation of a failure -/
+def sameRegionVerdict (r1 r2 : MPoly) (tol : Rat) : Verdict :=
+  match sameRegionCheck r1 r2 tol with
+  | .ok c t => .pass c t
+  | .unordered x => .internal s!"sameregion: slab at {x} violates a precondition of the comparator"
+  | .fail w => if memMP r1 w == memMP r2 w then .internal "sameregion: comparator failed at a point where the regions agree"
+               else .fail "sameregion" (some w)
+
 
 end Gbo.Spec
